@@ -94,7 +94,8 @@ def _all_lockfacts_assertions(ctx):
 
 def _exceptions(ctx):
     """Lists the lock-discipline failures outside the scope of C11 (documented exceptions) in the evidence."""
-    rc, out = core.sh(["lake", "env", "lean", os.path.join("WtfModel", "Audit", "C11Exceptions.lean")], cwd=core.LEAN, timeout=600)
+    with core.BuildLock():
+        rc, out = core.sh(["lake", "env", "lean", os.path.join("WtfModel", "Audit", "C11Exceptions.lean")], cwd=core.LEAN, timeout=600)
     res = {}
     for tag in ("C11-IN-SCOPE", "C11-ALL"):
         m = re.search(tag + r" \[(.*?)\]\s*$", out, re.M)
